@@ -8,6 +8,7 @@ fault at every proxy-socket call.  Oracle: an ordered I/O log of the (single) so
 import z3
 from .common import *
 from symlomond.symdata import items_of, eq_items, mk_bytes
+from symlomond.engine import PathAbort
 
 CONFIGS = [
     # ws url, proxies, expect proxy url or None, proxy host, proxy port, tls to proxy, target host, target port, wss
@@ -49,7 +50,7 @@ def _prelude(c, L, url, proxies):
     rec0 = hconn.drive(w0, ws0, dict(poll=1e9, ping_rate=0, ping_timeout=None, close_timeout=None))
     if rec0.budget is not None:
         raise EngineLimit('loop budget in proxy prelude')
-    return k
+    return k, ws0
 
 
 def run_proxy(c, P):
@@ -63,12 +64,20 @@ def run_proxy(c, P):
         proxies = {} if proxies == 'ENV:{}' else None
     else:
         _W.os.environ = {}
-    prelude = _prelude(c, L, url, proxies) if P.get('prelude') and purl else None
+    prelude, ws_prev = _prelude(c, L, url, proxies) if P.get('prelude') and purl else (None, None)
     w = new_world()
     status = [c.byte('s%d' % i) for i in range(3)] if P.get('sym_status', True) else list(b'200')
     tails = P.get('tails', ['ok', 'ok-headers', 'unterminated-eof', 'empty', 'oversize', 'oversize-terminated', 'garbage'])
     tail = tails[c.choose(len(tails), 'tail')] if purl else 'ok'
-    if tail == 'ok':
+    seps = None
+    if P.get('sym_seps') and tail == 'ok':
+        # the two separators of the status line are symbolic bytes (any value except CR/LF, which would change the line structure)
+        seps = [c.byte('sep0'), c.byte('sep1')]
+        if c.concrete is None:
+            for b in seps:
+                c.assume(z3.And(b.e != 13, b.e != 10))
+        reply = list(b'HTTP/1.1') + [seps[0]] + status + [seps[1]] + list(b'Connection established\r\n\r\n')
+    elif tail == 'ok':
         reply = list(b'HTTP/1.1 ') + status + list(b' Connection established\r\n\r\n')
     elif tail == 'ok-headers':
         reply = list(b'HTTP/1.1 ') + status + list(b' OK\r\nProxy-Agent: x\r\nVia: 1.1 p\r\n\r\n')
@@ -103,7 +112,8 @@ def run_proxy(c, P):
     if P.get('fault'):
         F = P['fault']
         w.fault_hook = env.SymFaults(F['ops'], F.get('kinds', ['oserror']), F.get('max', 1), F.get('skip'))
-    ws = L.WebSocket(url, proxies=proxies)
+    # (same_object: the checked attempt is a RE-connect of the object the earlier attempt used - C17)
+    ws = ws_prev if (P.get('same_object') and ws_prev is not None) else L.WebSocket(url, proxies=proxies)
     rec = hconn.drive(w, ws, dict(poll=1e9, ping_rate=0, ping_timeout=None, close_timeout=None))
     names = rec.names()
     inj = list(getattr(w.fault_hook, 'injected', None) or [])
@@ -154,6 +164,21 @@ def run_proxy(c, P):
             c.fail('C19: bytes written to the proxy socket before its answer was complete (tail=%s)' % tail,
                    sig='C19: write before the proxy answered')
     ok200 = eq_items(status, list(b'200'))
+    if seps is not None and c.concrete is not None:
+        if not (seps[0] == 32 and seps[1] == 32):
+            if all(b in (32, 9, 11, 12) for b in seps):
+                raise PathAbort('lenient status-line separators: outside the claim')
+            ok200 = False
+    if seps is not None and c.concrete is None:
+        # a status line is "HTTP-version SP status SP reason": with both separators SP the verdict is the status alone; with
+        # another ASCII blank (HT VT FF) lenient parsing may go either way (don't care); with anything else - letters,
+        # digits, control characters such as 0x1C-0x1F - there is no status field "200" and the tunnel must not be used
+        sp = z3.And(seps[0].e == 32, seps[1].e == 32)
+        blank = lambda b: z3.Or(b.e == 32, b.e == 9, b.e == 11, b.e == 12)
+        if not c.branch(sp):
+            if c.branch(z3.And(blank(seps[0]), blank(seps[1]))):
+                raise PathAbort('lenient status-line separators: outside the claim')
+            ok200 = False
     started = bool(got_upgrade)
     if started:
         if not complete:
@@ -195,3 +220,13 @@ def _contains(items, sub):
         if items[i:i + m] == sub:
             return True
     return False
+
+
+def run_proxy_as(c, P):
+    """the same harness serving another property (P['as']): violations are reported under that property's id"""
+    from symlomond.engine import Violation
+    try:
+        return run_proxy(c, P)
+    except Violation as v:
+        tag = P['as']
+        raise Violation(v.what.replace('C19:', tag + ':'), v.model, v.sig.replace('C19:', tag + ':') if v.sig else v.sig)
